@@ -6,7 +6,11 @@
 (* of two pulses, so Ref is a three-phase sequencer with explicit counts.  *)
 (*                                                                         *)
 (* Grain: one step = one clock cycle.                                      *)
-(*   Env  : the trigger input of the cycle (any value in any cycle).       *)
+(*   Env  : the trigger input of the cycle (any value in any cycle) and the *)
+(*          reset of the controller's clock domain (asserted at any cycle,  *)
+(*          held for any number of cycles; e.g. ~pll_lock): while it is     *)
+(*          held the outputs show the power-on state, and after its release *)
+(*          the controller behaves as from power-on.                        *)
 (*   Ref  : ph  = phase shown by the outputs in the cycle just taken       *)
 (*          cnt = cycles spent in ph so far (the cycle just taken included)*)
 (*          phy_reset = (ph = "reset"),  phy_stop = (ph # "idle").         *)
@@ -30,48 +34,54 @@ VARIABLES R, S,     \* configuration: reset / stop length in cycles
           ph,       \* "boot" (before the first cycle) | "reset" | "stop" | "idle"
           cnt,      \* cycles spent in ph, including the cycle just taken (kept 0 while idle)
           trg,      \* Env: trigger input of the cycle just taken
+          rst,      \* Env: the clock domain's reset was asserted in the cycle just taken
           due,      \* 0, or cycles since an idle-time trigger that has not started its reset yet
           seen,     \* a trigger was seen while the running sequence was in progress
           opt       \* cycles left in which a remembered trigger may still start a sequence
 
-vars == <<R, S, por, ph, cnt, trg, due, seen, opt>>
+vars == <<R, S, por, ph, cnt, trg, rst, due, seen, opt>>
 
 PhyReset == ph = "reset"
 PhyStop  == ph \in {"reset", "stop"}
 
 InitCfg(r, s, p) ==
     /\ R = r /\ S = s /\ por = p
-    /\ ph = "boot" /\ cnt = 0 /\ trg = FALSE /\ due = 0 /\ seen = FALSE /\ opt = 0
+    /\ ph = "boot" /\ cnt = 0 /\ trg = FALSE /\ rst = FALSE /\ due = 0 /\ seen = FALSE /\ opt = 0
 
 Init == \E r \in 1..MaxR, s \in 1..MaxS, p \in BOOLEAN : InitCfg(r, s, p)
 
 \* The phases the next cycle may show.
 Allowed ==
-    CASE ph = "boot"  -> IF por THEN {"reset"} ELSE {"idle"}
+    CASE rst \/ ph = "boot" -> IF por THEN {"reset"} ELSE {"idle"}     \* as from power-on
       [] ph = "reset" -> IF cnt < R THEN {"reset"} ELSE {"stop"}
       [] ph = "stop"  -> IF cnt < S THEN {"stop"} ELSE {"idle"}
       [] ph = "idle"  -> IF due > 0 THEN {"reset"} \cup (IF due < MaxLat THEN {"idle"} ELSE {})
                          ELSE IF opt > 0 THEN {"idle", "reset"}
                          ELSE {"idle"}
 
-\* One clock cycle: the cycle shows phase p and carries trigger input t.
-Step(t, p) ==
+\* One clock cycle: the cycle shows phase p and carries trigger input t and domain-reset input x.
+\* A cycle in which the domain reset is asserted does not count (cnt = 0): the cycle after it shows
+\* the power-on state again and, once the reset is released, the pulse lengths are counted afresh.
+Step(t, x, p) ==
     /\ p \in Allowed
     /\ ph' = p
-    /\ cnt' = IF p = "idle" THEN 0 ELSE IF p = ph THEN cnt + 1 ELSE 1
+    /\ cnt' = IF p = "idle" \/ x THEN 0
+              ELSE IF rst THEN 1
+              ELSE IF p = ph THEN cnt + 1 ELSE 1
     /\ trg' = t
-    /\ due' = IF p # "idle" THEN 0
+    /\ rst' = x
+    /\ due' = IF p # "idle" \/ x THEN 0
               ELSE IF due > 0 THEN due + 1
               ELSE IF t THEN 1 ELSE 0
-    /\ seen' = IF p = "idle" THEN FALSE
-               ELSE IF p = "reset" /\ ph # "reset" THEN t
+    /\ seen' = IF p = "idle" \/ x THEN FALSE
+               ELSE IF p = "reset" /\ (ph # "reset" \/ rst) THEN t
                ELSE seen \/ t
-    /\ opt' = IF p # "idle" THEN 0
-              ELSE IF ph = "stop" THEN (IF seen THEN MaxLat ELSE 0)
+    /\ opt' = IF p # "idle" \/ x THEN 0
+              ELSE IF ph = "stop" /\ ~rst THEN (IF seen THEN MaxLat ELSE 0)
               ELSE IF opt > 0 THEN opt - 1 ELSE 0
     /\ UNCHANGED <<R, S, por>>
 
-Next == \E t \in BOOLEAN, p \in {"reset", "stop", "idle"} : Step(t, p)
+Next == \E t \in BOOLEAN, x \in BOOLEAN, p \in {"reset", "stop", "idle"} : Step(t, x, p)
 
 Spec == Init /\ [][Next]_vars
 FairSpec == Spec /\ WF_vars(Next)
@@ -88,21 +98,24 @@ StopCoversReset == PhyReset => PhyStop
 
 \* The reset pulse lasts exactly R cycles and is followed by the stop phase.
 ResetNeverLonger == ph = "reset" => cnt <= R
-ResetExact == [][(ph = "reset" /\ ph' # "reset") => (cnt = R /\ ph' = "stop")]_vars
+ResetExact == [][(ph = "reset" /\ ph' # "reset" /\ ~rst) => (cnt = R /\ ph' = "stop")]_vars
+\* ... also when it (re)starts because the clock domain was reset: counted from the release of that reset.
+ResetExactAfterDomainReset == [][(rst /\ ~rst' /\ por) => (ph' = "reset" /\ cnt' = 1)]_vars
 
 \* STP stays asserted exactly S cycles after the reset, then the controller is idle.
 StopNeverLonger == ph = "stop" => cnt <= S
-StopExact == [][(ph = "stop" /\ ph' # "stop") => (cnt = S /\ ph' = "idle")]_vars
+StopExact == [][(ph = "stop" /\ ph' # "stop" /\ ~rst) => (cnt = S /\ ph' = "idle")]_vars
 
 \* A reset pulse only ever starts at power-on or because of a trigger.
 ResetHasCause == [][(ph' = "reset" /\ ph # "reset") =>
-                      ((ph = "boot" /\ por) \/ (ph = "idle" /\ (due > 0 \/ opt > 0)))]_vars
+                      (((ph = "boot" \/ rst) /\ por) \/ (ph = "idle" /\ (due > 0 \/ opt > 0)))]_vars
 \* The stop phase only ever follows a reset pulse.
-StopFollowsReset == [][(ph' = "stop" /\ ph # "stop") => ph = "reset"]_vars
+StopFollowsReset == [][(ph' = "stop" /\ ph # "stop") => (ph = "reset" /\ ~rst)]_vars
 
 \* Every sequence finishes (for every pair of lengths, including S > R) ...
-AlwaysFinishes == (ph \in {"reset", "stop"}) ~> (ph = "idle")
+\* (unless the environment keeps resetting the clock domain for ever)
+AlwaysFinishes == ([]<>rst) \/ ((ph \in {"reset", "stop"}) ~> (ph = "idle"))
 \* ... and the idle controller is ready for the next trigger.
-Retriggerable == (ph = "idle" /\ trg) ~> (ph = "reset")
+Retriggerable == (ph = "idle" /\ trg /\ ~rst) ~> (ph = "reset" \/ rst)
 PowerOnReset == (ph = "boot" /\ por) ~> (ph = "reset")
 =============================================================================
